@@ -197,6 +197,8 @@ def _apply_contract_tail(ctx, c, fn, target, ns, ghosts):
             ctx.class_overlay[(owner, attr)] = val
         else:
             ctx.module_overlay[(owner, attr)] = val
+    if c.interference is not None:
+        ctx.call_spec(c.interference, ns)
     if isinstance(target, type) and c.returns is None and c.effect is None:
         raise Unsupported("constructor contract needs a returns shape")
     result = None
